@@ -17,7 +17,7 @@ Print Assumptions c11_matrices.
 Theorem c11_sites :
   Forall (fun s => In s [(1, 368, 488); (2, 272, 296); (2, 368, 402); (3, 368, 420)]%N) depuncture_sites /\
   Forall (fun s => In s [(1, 488, 368); (2, 296, 272); (2, 402, 368); (3, 420, 368)]%N) puncture_sites /\
-  Forall (fun s => In s [(1, 61, 46); (2, 41, 34)]%N) puncture_bytes_sites.
+  Forall (fun s => In s [(1, 61, 46); (2, 37, 34)]%N) puncture_bytes_sites.
 Proof. exact sites_lemma. Qed.
 Print Assumptions c11_sites.
 
@@ -67,13 +67,13 @@ Theorem c11_puncture_bytes_agrees : forall (p : list N) (OUT : nat) (inp prev : 
 Proof. exact puncture_bytes_spec. Qed.
 Print Assumptions c11_puncture_bytes_agrees.
 
-(** the modulator's two packed geometries (61 -> 46 bytes with P1; 41 -> 34 bytes with P2, of which only the first 296 bits matter) *)
+(** the modulator's two packed geometries (61 -> 46 bytes with P1; 37 -> 34 bytes with P2) *)
 Theorem c11_puncture_bytes_geometries : forall inp prev : list N,
   (length inp = 61 -> length prev = 46 ->
      bytes_bits (fst (puncture_bytes_lsf inp prev)) = keep (mask P1 488) (bytes_bits inp) /\
      snd (puncture_bytes_lsf inp prev) = 368 /\ length (fst (puncture_bytes_lsf inp prev)) = 46) /\
-  (length inp = 41 -> length prev = 34 ->
-     bytes_bits (fst (puncture_bytes_stream inp prev)) = keep (mask P2 296) (firstn 296 (bytes_bits inp)) /\
+  (length inp = 37 -> length prev = 34 ->
+     bytes_bits (fst (puncture_bytes_stream inp prev)) = keep (mask P2 296) (bytes_bits inp) /\
      snd (puncture_bytes_stream inp prev) = 272 /\ length (fst (puncture_bytes_stream inp prev)) = 34).
 Proof. exact puncture_bytes_geometries_thm. Qed.
 Print Assumptions c11_puncture_bytes_geometries.
